@@ -11,21 +11,31 @@ package nodenumaresource
 // allocation, so the history is interleaved at operation level: the driver
 // picks the next party (scheduler step, informer delivery, binding result, API
 // operation) from the deliver tape. See /verif/DESIGN.md §4 C06.
+//
+// The engine also serves C19 (r.Prop == "C19"): the same histories with the real
+// Plugin.PreBind persisting at bind and a restart fork after every bind - see the
+// section "C19" at the end of this file. C06's behaviour is unchanged for its own id.
 
 import (
+	"context"
+	"encoding/json"
 	"fmt"
 	"sort"
 	"strings"
 	"testing"
 
+	nrtv1alpha1 "github.com/k8stopologyawareschedwg/noderesourcetopology-api/pkg/apis/topology/v1alpha1"
 	corev1 "k8s.io/api/core/v1"
 	"k8s.io/apimachinery/pkg/api/resource"
 	metav1 "k8s.io/apimachinery/pkg/apis/meta/v1"
 	"k8s.io/apimachinery/pkg/types"
 	"k8s.io/client-go/tools/cache"
+	fwktype "k8s.io/kube-scheduler/framework"
+	"k8s.io/kubernetes/pkg/scheduler/framework"
 
 	apiext "github.com/koordinator-sh/koordinator/apis/extension"
 	schedulingconfig "github.com/koordinator-sh/koordinator/pkg/scheduler/apis/config"
+	"github.com/koordinator-sh/koordinator/pkg/scheduler/frameworkext"
 	"github.com/koordinator-sh/koordinator/pkg/scheduler/frameworkext/topologymanager"
 	"github.com/koordinator-sh/koordinator/pkg/util/bitmask"
 	"github.com/koordinator-sh/koordinator/pkg/util/cpuset"
@@ -52,6 +62,9 @@ const (
 
 type nvCfg struct {
 	Strategy string `json:"strategy"` // scheduler-wide default NUMA allocate strategy
+	// C19 only: how the start-up deliveries of a restarted scheduler are merged ("topology-first": every
+	// NodeResourceTopology is handled before the first pod; "any": the three informers run independently)
+	Order string `json:"order,omitempty"`
 }
 
 type nvTopo struct {
@@ -219,6 +232,7 @@ func (t *nvTopo) options() TopologyOptions {
 type nvAlloc struct {
 	cpus []int                    // sorted
 	numa map[int]map[string]int64 // NUMA node -> dimension -> amount
+	excl string                   // CPU exclusive policy recorded with the allocation (C19; not part of String())
 }
 
 func (a *nvAlloc) empty() bool { return a == nil || (len(a.cpus) == 0 && len(a.numa) == 0) }
@@ -257,7 +271,7 @@ func nvFmt(m map[string]int64) string {
 }
 
 func nvFromReal(pa *PodAllocation) *nvAlloc {
-	a := &nvAlloc{cpus: pa.CPUSet.ToSlice(), numa: map[int]map[string]int64{}}
+	a := &nvAlloc{cpus: pa.CPUSet.ToSlice(), numa: map[int]map[string]int64{}, excl: string(pa.CPUExclusivePolicy)}
 	for _, nr := range pa.NUMANodeResources {
 		m := a.numa[nr.Node]
 		if m == nil {
@@ -287,12 +301,14 @@ type nvPodVer struct {
 	spec            nvSpec
 	rv              int
 	obj             *corev1.Pod
+	ann             map[string]string // C19: the annotations the real Plugin.PreBind wrote at bind time (nil: built from alloc)
 }
 
 type nvNode struct {
 	name string
 	topo *nvTopo
 	obj  *corev1.Node
+	nrt  *nrtv1alpha1.NodeResourceTopology // C19: the NodeResourceTopology object of the node (built on first use)
 }
 
 type nvEvent struct {
@@ -333,6 +349,43 @@ type nvSim struct {
 	// event-level model of the ledger: node -> pod uid -> allocation
 	holders map[string]map[string]*nvAlloc
 	steps   int
+	// C19 (restart) mode
+	c19     bool
+	liveBad bool                    // the live ledger failed one of C06's oracles in this run: not used as a reference any more
+	pl      *Plugin                 // real Plugin for PreBind (persistence at bind)
+	forks   int
+	mixed   map[string]map[int]bool // node -> CPUs on which an allocation was added on top of a holder with another exclusive policy
+}
+
+// fail reports a violation of one of C06's oracles. Under C19 these oracles are not claimed (they are C06's and
+// `check C06` reports them): the run goes on, but the live ledger is no longer trusted as the reference of the
+// restart comparison (the rebuilt state is still compared with what the API objects say).
+func (s *nvSim) fail(oracle, sigDetail, format string, args ...any) {
+	if s.c19 {
+		if !s.liveBad {
+			s.r.Probe("c19:live-ledger-failed-a-C06-oracle(run)")
+		}
+		s.liveBad = true
+		s.r.Probe("c19:C06-oracle-failed(not claimed here):" + oracle)
+		return
+	}
+	s.r.Fail(oracle, sigDetail, format, args...)
+}
+
+// oracleEval counts evaluations of the oracles of the property under check only.
+func (s *nvSim) oracleEval() {
+	if !s.c19 {
+		s.r.OracleEval()
+	}
+}
+
+// tagC06 marks a history class of a finding recorded for C06; it is not a history class of C19.
+func (s *nvSim) tagC06(name string) {
+	if s.c19 {
+		s.r.Probe("c19:C06-history-class:" + name)
+		return
+	}
+	s.r.Tag(name)
 }
 
 func (s *nvSim) bump() int { s.rv++; return s.rv }
@@ -365,7 +418,12 @@ func (s *nvSim) mkPod(v *nvPodVer) *nvPodVer {
 	if v.term {
 		pod.Status.Phase = corev1.PodSucceeded
 	}
-	if !v.alloc.empty() {
+	if v.ann != nil {
+		// C19: exactly what the real Plugin.PreBind wrote into the pod at bind time
+		for k, val := range v.ann {
+			pod.Annotations[k] = val
+		}
+	} else if !v.alloc.empty() {
 		// what Plugin.preBindObject persists (resource-status annotation), through the real codec
 		st := &apiext.ResourceStatus{CPUSet: cpuset.NewCPUSet(v.alloc.cpus...).String()}
 		ns := make([]int, 0, len(v.alloc.numa))
@@ -415,6 +473,27 @@ func (s *nvSim) pendingFor(node string) bool {
 func (s *nvSim) hold(node, uid string, a *nvAlloc) {
 	if s.holders[node] == nil {
 		s.holders[node] = map[string]*nvAlloc{}
+	}
+	if s.c19 && a != nil && s.holders[node][uid] == nil {
+		// the ledger keeps ONE exclusive policy per CPU (the last writer's): remember the CPUs on which pods with
+		// different exclusive policies were stacked (only possible with MaxRefCount > 1)
+		for _, o := range s.holders[node] {
+			if nvExclNorm(o.excl) == nvExclNorm(a.excl) {
+				continue
+			}
+			for _, c := range a.cpus {
+				for _, oc := range o.cpus {
+					if c == oc {
+						if s.mixed[node] == nil {
+							s.mixed[node] = map[int]bool{}
+						}
+						s.mixed[node][c] = true
+						// history class of a finding recorded for C19 (the per-CPU exclusive policy is the last writer's)
+						s.r.Tag(nvTagStacked)
+					}
+				}
+			}
+		}
 	}
 	s.holders[node][uid] = a
 }
@@ -550,6 +629,7 @@ func (s *nvSim) opNodeAdd(op *nvOp) bool {
 		if a == nil {
 			continue
 		}
+		a.excl = pre.Excl
 		req := map[string]int64{nvCPU: int64(len(a.cpus)) * 1000}
 		v := s.mkPod(&nvPodVer{name: pre.P, uid: "u-" + pre.P, node: op.N, alloc: a, rv: s.bump(),
 			spec: nvSpec{Bind: len(a.cpus) > 0, Pol: string(apiext.CPUBindPolicyFullPCPUs), Excl: pre.Excl, Req: req}})
@@ -679,6 +759,7 @@ func (s *nvSim) deliver(typ string) {
 		}
 		delete(s.schedNodes, ev.node)
 		delete(s.holders, ev.node)
+		delete(s.mixed, ev.node)
 		s.r.Event("deliver node delete %s", ev.node)
 	case "pod":
 		s.deliverPod(ev)
@@ -822,7 +903,7 @@ func (s *nvSim) opSched(op *nvOp) bool {
 		if len(hint) >= 3 || (len(hint) == 2 && !nvIsPrefix(hint)) {
 			// history class of the recorded finding: a multi-node hint other than {0,1} (the comparator of the
 			// ascending-by-free sort looks up slice positions instead of the node ids stored at those positions)
-			s.r.Tag(nvTagHint)
+			s.tagC06(nvTagHint)
 		}
 		if !nvIsPrefix(hint) {
 			s.r.Probe("hint-not-prefix")
@@ -841,9 +922,10 @@ func (s *nvSim) opSched(op *nvOp) bool {
 
 	pa, status := s.rm.Allocate(nd.obj, pod.obj, opts)
 	ok := status.IsSuccess()
-	s.r.OracleEval()
+	s.oracleEval()
 	if ok && pa == nil {
-		s.r.Fail("allocate", "nil-result", "Allocate(%s on %s) succeeded without an allocation", op.P, op.N)
+		s.fail("allocate", "nil-result", "Allocate(%s on %s) succeeded without an allocation", op.P, op.N)
+		return true
 	}
 	if ok {
 		s.r.Event("allocate %s on %s hint=%v ok -> %s", op.P, op.N, hint, nvFromReal(pa))
@@ -890,7 +972,7 @@ func (s *nvSim) opSched(op *nvOp) bool {
 				if len(hint) >= 3 || (len(hint) == 2 && !nvIsPrefix(hint)) {
 					class = "hint-multi-node-not-01"
 				}
-				s.r.Fail("numa-complete", class, "Allocate failed (%s) although the hinted NUMA nodes together have enough free: %s; free %s; %s",
+				s.fail("numa-complete", class, "Allocate failed (%s) although the hinted NUMA nodes together have enough free: %s; free %s; %s",
 					status.Message(), strings.Join(detail, "; "), strings.Join(fr, " "), desc)
 			}
 			s.r.Probe("numa-fail-justified")
@@ -900,27 +982,30 @@ func (s *nvSim) opSched(op *nvOp) bool {
 
 	got := nvFromReal(pa)
 	s.r.Sample("allocate %s -> %s", desc, got)
+	if s.c19 {
+		s.codecRoundTrip(pa, desc)
+	}
 
 	// ---- CPU set oracles
 	if !pod.spec.Bind {
 		if len(got.cpus) != 0 {
-			s.r.Fail("cpu-unrequested", "", "pod without CPU binding got CPUs %v; %s", got.cpus, desc)
+			s.fail("cpu-unrequested", "", "pod without CPU binding got CPUs %v; %s", got.cpus, desc)
 		}
 	} else {
 		s.r.Probe("alloc-cpu-ok")
 		if len(got.cpus) != need {
-			s.r.Fail("cpu-count", nvPolSig(pod.spec), "asked for %d CPUs, got %d (%v); %s", need, len(got.cpus), got.cpus, desc)
+			s.fail("cpu-count", nvPolSig(pod.spec), "asked for %d CPUs, got %d (%v); %s", need, len(got.cpus), got.cpus, desc)
 		}
 		shared := false
 		for _, c := range got.cpus {
 			if _, ok := t.pos(c); !ok {
-				s.r.Fail("cpu-not-free", "unknown-cpu", "CPU %d is not in the topology; %s", c, desc)
+				s.fail("cpu-not-free", "unknown-cpu", "CPU %d is not in the topology; %s", c, desc)
 			}
 			if t.reserved(c) {
-				s.r.Fail("cpu-not-free", "reserved", "CPU %d is reserved; got %v; %s", c, got.cpus, desc)
+				s.fail("cpu-not-free", "reserved", "CPU %d is reserved; got %v; %s", c, got.cpus, desc)
 			}
 			if cnt[c] >= t.Max {
-				s.r.Fail("cpu-not-free", "refcount", "CPU %d was already held by %d pods (MaxRefCount %d); got %v; %s", c, cnt[c], t.Max, got.cpus, desc)
+				s.fail("cpu-not-free", "refcount", "CPU %d was already held by %d pods (MaxRefCount %d); got %v; %s", c, cnt[c], t.Max, got.cpus, desc)
 			}
 			if cnt[c] > 0 {
 				shared = true
@@ -942,14 +1027,14 @@ func (s *nvSim) opSched(op *nvOp) bool {
 			case string(apiext.CPUBindPolicyFullPCPUs):
 				for core, k := range perCore {
 					if k != t.T {
-						s.r.Fail("policy", "fullpcpus", "required FullPCPUs reported satisfied but core %d contributes %d of its %d CPUs: %v; %s", core, k, t.T, got.cpus, desc)
+						s.fail("policy", "fullpcpus", "required FullPCPUs reported satisfied but core %d contributes %d of its %d CPUs: %v; %s", core, k, t.T, got.cpus, desc)
 					}
 				}
 				s.r.Probe("required-fullpcpus-verified")
 			case string(apiext.CPUBindPolicySpreadByPCPUs):
 				for core, k := range perCore {
 					if k != 1 {
-						s.r.Fail("policy", "spreadbypcpus", "required SpreadByPCPUs reported satisfied but core %d contributes %d CPUs: %v; %s", core, k, got.cpus, desc)
+						s.fail("policy", "spreadbypcpus", "required SpreadByPCPUs reported satisfied but core %d contributes %d CPUs: %v; %s", core, k, got.cpus, desc)
 					}
 				}
 				s.r.Probe("required-spread-verified")
@@ -960,7 +1045,7 @@ func (s *nvSim) opSched(op *nvOp) bool {
 	// ---- NUMA-level oracles
 	if hint == nil {
 		if len(got.numa) != 0 {
-			s.r.Fail("numa-unrequested", "", "allocation without a NUMA hint carries NUMA amounts %s; %s", got, desc)
+			s.fail("numa-unrequested", "", "allocation without a NUMA hint carries NUMA amounts %s; %s", got, desc)
 		}
 	} else {
 		s.r.Probe("alloc-numa-ok")
@@ -974,15 +1059,15 @@ func (s *nvSim) opSched(op *nvOp) bool {
 		sum := map[string]int64{}
 		for _, n := range nvSortedInts(got.numa) {
 			if !inHint[n] {
-				s.r.Fail("numa-outside-hint", "", "NUMA node %d is not in the hint %v: %s; %s", n, hint, got, desc)
+				s.fail("numa-outside-hint", "", "NUMA node %d is not in the hint %v: %s; %s", n, hint, got, desc)
 			}
 			for _, d := range nvSortedKeys(got.numa[n]) {
 				v := got.numa[n][d]
 				if v < 0 {
-					s.r.Fail("numa-negative", "", "negative amount %s=%d on NUMA node %d; %s", d, v, n, desc)
+					s.fail("numa-negative", "", "negative amount %s=%d on NUMA node %d; %s", d, v, n, desc)
 				}
 				if v > free[n][d] {
-					s.r.Fail("numa-over-free", nvDimSig(d), "NUMA node %d hands out %s=%d but had only %d free: %s; %s", n, d, v, free[n][d], got, desc)
+					s.fail("numa-over-free", nvDimSig(d), "NUMA node %d hands out %s=%d but had only %d free: %s; %s", n, d, v, free[n][d], got, desc)
 				}
 				sum[d] += v
 			}
@@ -993,12 +1078,12 @@ func (s *nvSim) opSched(op *nvOp) bool {
 				want = 0 // not a NUMA-level resource on this node: nothing to hand out
 			}
 			if sum[d] != want {
-				s.r.Fail("numa-sum", nvDimSig(d), "requested %s=%d, NUMA nodes hand out %d in total: %s; %s", d, want, sum[d], got, desc)
+				s.fail("numa-sum", nvDimSig(d), "requested %s=%d, NUMA nodes hand out %d in total: %s; %s", d, want, sum[d], got, desc)
 			}
 		}
 		for _, d := range nvSortedKeys(sum) {
 			if _, asked := pod.spec.Req[d]; !asked {
-				s.r.Fail("numa-sum", "unrequested-dim", "dimension %s was not requested: %s; %s", d, got, desc)
+				s.fail("numa-sum", "unrequested-dim", "dimension %s was not requested: %s; %s", d, got, desc)
 			}
 		}
 		if len(got.numa) > 1 {
@@ -1065,23 +1150,24 @@ func (s *nvSim) opTake(op *nvOp) bool {
 	cnt := s.cpuCounts(op.N)
 	avail, allocated, err := s.rm.GetAvailableCPUs(op.N)
 	if err != nil {
-		s.r.Fail("available", "error", "GetAvailableCPUs(%s): %v", op.N, err)
+		s.fail("available", "error", "GetAvailableCPUs(%s): %v", op.N, err)
+		return true
 	}
 	// the free set itself is checked against the model: not reserved, below the sharing limit
 	for c := 0; c < t.numCPUs(); c++ {
 		free := !t.reserved(c) && cnt[c] < t.Max
 		if free != avail.Contains(c) {
-			s.r.Fail("available", "free-set", "node %s CPU %d: reported free=%v, model free=%v (held by %d, MaxRefCount %d, reserved=%v)", op.N, c, avail.Contains(c), free, cnt[c], t.Max, t.reserved(c))
+			s.fail("available", "free-set", "node %s CPU %d: reported free=%v, model free=%v (held by %d, MaxRefCount %d, reserved=%v)", op.N, c, avail.Contains(c), free, cnt[c], t.Max, t.reserved(c))
 		}
 	}
 	if avail.Size() > 0 && avail.ToSlice()[avail.Size()-1] >= t.numCPUs() {
-		s.r.Fail("available", "free-set", "node %s reports unknown CPUs free: %v", op.N, avail.ToSlice())
+		s.fail("available", "free-set", "node %s reports unknown CPUs free: %v", op.N, avail.ToSlice())
 	}
 	topo := s.tm.GetTopologyOptions(op.N).CPUTopology
 	strategy := GetNUMAAllocateStrategy(nd.obj, s.rm.numaAllocateStrategy)
 	got, err := takePreferredCPUs(topo, t.Max, avail, cpuset.NewCPUSet(op.Pref...), allocated, op.CPUs,
 		schedulingconfig.CPUBindPolicy(op.Pol), schedulingconfig.CPUExclusivePolicy(op.Excl), strategy)
-	s.r.OracleEval()
+	s.oracleEval()
 	s.r.Event("take %s n=%d pol=%s excl=%s pref=%v ok=%v %v", op.N, op.CPUs, op.Pol, op.Excl, op.Pref, err == nil, got.ToSlice())
 	if err != nil {
 		s.r.Probe("take-preferred-fail")
@@ -1089,15 +1175,15 @@ func (s *nvSim) opTake(op *nvOp) bool {
 	}
 	s.r.Probe("take-preferred-ok")
 	if got.Size() != op.CPUs {
-		s.r.Fail("cpu-count", "take-preferred", "takePreferredCPUs: asked for %d CPUs, got %d (%v); preferred %v, free %v", op.CPUs, got.Size(), got.ToSlice(), op.Pref, avail.ToSlice())
+		s.fail("cpu-count", "take-preferred", "takePreferredCPUs: asked for %d CPUs, got %d (%v); preferred %v, free %v", op.CPUs, got.Size(), got.ToSlice(), op.Pref, avail.ToSlice())
 	}
 	fromPref := 0
 	for _, c := range got.ToSlice() {
 		if t.reserved(c) {
-			s.r.Fail("cpu-not-free", "reserved", "takePreferredCPUs took reserved CPU %d: %v", c, got.ToSlice())
+			s.fail("cpu-not-free", "reserved", "takePreferredCPUs took reserved CPU %d: %v", c, got.ToSlice())
 		}
 		if _, ok := t.pos(c); !ok || cnt[c] >= t.Max {
-			s.r.Fail("cpu-not-free", "refcount", "takePreferredCPUs took CPU %d held by %d pods (MaxRefCount %d): %v", c, cnt[c], t.Max, got.ToSlice())
+			s.fail("cpu-not-free", "refcount", "takePreferredCPUs took CPU %d held by %d pods (MaxRefCount %d): %v", c, cnt[c], t.Max, got.ToSlice())
 		}
 		for _, pc := range op.Pref {
 			if pc == c {
@@ -1140,7 +1226,13 @@ func (s *nvSim) bindResult(i int) {
 	c := s.binds[i]
 	s.binds = append(s.binds[:i:i], s.binds[i+1:]...)
 	cur := s.pods[c.pod.name]
-	if c.bindFails || cur == nil || cur.node != "" || s.nodes[c.node] == nil {
+	var persisted map[string]string
+	preBindFailed := false
+	if s.c19 && !(c.bindFails || cur == nil || cur.node != "" || s.nodes[c.node] == nil) {
+		// C19: the binding cycle runs the real Plugin.PreBind on a copy of the pod; what it writes is what the API server stores
+		persisted, preBindFailed = s.preBind(c, cur)
+	}
+	if c.bindFails || cur == nil || cur.node != "" || s.nodes[c.node] == nil || preBindFailed {
 		// Plugin.Unreserve
 		s.rm.Release(c.node, types.UID(c.pod.uid))
 		s.unhold(c.node, c.pod.uid)
@@ -1150,6 +1242,9 @@ func (s *nvSim) bindResult(i int) {
 			s.r.Probe("bind-after-pod-delete")
 		case s.nodes[c.node] == nil:
 			s.r.Probe("bind-after-node-delete")
+		case preBindFailed:
+			s.r.Probe("c19:prebind-failed-unreserve")
+			s.queue[c.pod.name] = cur
 		default:
 			s.r.Probe("bind-failed-unreserve")
 			s.queue[c.pod.name] = cur // back to the scheduling queue
@@ -1159,9 +1254,14 @@ func (s *nvSim) bindResult(i int) {
 	}
 	nv := *cur
 	nv.node, nv.alloc, nv.rv = c.node, c.alloc, s.bump()
+	nv.ann = persisted
 	s.pods[c.pod.name] = s.mkPod(&nv)
 	s.emit(nvEvent{typ: "pod", kind: "update", old: cur, new: s.pods[c.pod.name]})
 	s.r.Event("bound %s on %s", c.pod.name, c.node)
+	if s.c19 {
+		// crash point: the scheduler dies right after this bind; a fresh one starts from the API objects
+		s.fork("bind of "+c.pod.name, false)
+	}
 }
 
 // ---------------------------------------------------------------- ledger oracles
@@ -1192,7 +1292,7 @@ func (s *nvSim) checkLedger(after string) {
 		sorted = append(sorted, n)
 	}
 	sort.Strings(sorted)
-	s.r.OracleEval()
+	s.oracleEval()
 	for _, node := range sorted {
 		na := real[node]
 		hs := s.holders[node]
@@ -1206,15 +1306,15 @@ func (s *nvSim) checkLedger(after string) {
 		for uid, pa := range pods {
 			a := hs[string(uid)]
 			if a == nil {
-				s.r.Fail("ledger", "ghost-pod", "after %s: node %s ledger holds pod %s (%s) that is not live", after, node, uid, nvFromReal(&pa))
+				s.fail("ledger", "ghost-pod", "after %s: node %s ledger holds pod %s (%s) that is not live", after, node, uid, nvFromReal(&pa))
 			}
 			if g := nvFromReal(&pa); g.String() != a.String() {
-				s.r.Fail("ledger", "pod-allocation", "after %s: node %s pod %s recorded as %s, live allocation is %s", after, node, uid, g, a)
+				s.fail("ledger", "pod-allocation", "after %s: node %s pod %s recorded as %s, live allocation is %s", after, node, uid, g, a)
 			}
 		}
 		for uid, a := range hs {
 			if _, ok := pods[types.UID(uid)]; !ok {
-				s.r.Fail("ledger", "lost-pod", "after %s: node %s ledger lost live pod %s (%s)", after, node, uid, a)
+				s.fail("ledger", "lost-pod", "after %s: node %s ledger lost live pod %s (%s)", after, node, uid, a)
 			}
 		}
 		// CPUs
@@ -1222,21 +1322,21 @@ func (s *nvSim) checkLedger(after string) {
 		if nd := s.nodes[node]; nd != nil && s.known[node] == nd {
 			for _, c := range nvSortedInts(cnt) {
 				if cnt[c] > nd.topo.Max {
-					s.r.Fail("refcount-exceeds-max", "", "after %s: node %s CPU %d is held by %d live pods, MaxRefCount %d", after, node, c, cnt[c], nd.topo.Max)
+					s.fail("refcount-exceeds-max", "", "after %s: node %s CPU %d is held by %d live pods, MaxRefCount %d", after, node, c, cnt[c], nd.topo.Max)
 				}
 			}
 		}
 		for c, info := range cpus {
 			if info.RefCount != cnt[c] {
-				s.r.Fail("ledger", "cpu-refcount", "after %s: node %s CPU %d ref count %d, live pods holding it %d", after, node, c, info.RefCount, cnt[c])
+				s.fail("ledger", "cpu-refcount", "after %s: node %s CPU %d ref count %d, live pods holding it %d", after, node, c, info.RefCount, cnt[c])
 			}
 			if info.RefCount <= 0 {
-				s.r.Fail("ledger", "cpu-refcount-zero-entry", "after %s: node %s CPU %d kept with ref count %d", after, node, c, info.RefCount)
+				s.fail("ledger", "cpu-refcount-zero-entry", "after %s: node %s CPU %d kept with ref count %d", after, node, c, info.RefCount)
 			}
 		}
 		for c, k := range cnt {
 			if _, ok := cpus[c]; !ok && k > 0 {
-				s.r.Fail("ledger", "cpu-refcount", "after %s: node %s CPU %d not in the ledger, live pods holding it %d", after, node, c, k)
+				s.fail("ledger", "cpu-refcount", "after %s: node %s CPU %d not in the ledger, live pods holding it %d", after, node, c, k)
 			}
 		}
 		// per-NUMA amounts
@@ -1244,7 +1344,7 @@ func (s *nvSim) checkLedger(after string) {
 		for n, nr := range res {
 			for d, q := range nr.Resources {
 				if v := nvVal(string(d), q); v != used[n][string(d)] {
-					s.r.Fail("ledger", "numa-amount", "after %s: node %s NUMA %d %s ledger %d, sum over live pods %d", after, node, n, d, v, used[n][string(d)])
+					s.fail("ledger", "numa-amount", "after %s: node %s NUMA %d %s ledger %d, sum over live pods %d", after, node, n, d, v, used[n][string(d)])
 				}
 			}
 		}
@@ -1257,7 +1357,7 @@ func (s *nvSim) checkLedger(after string) {
 					}
 				}
 				if have != v {
-					s.r.Fail("ledger", "numa-amount", "after %s: node %s NUMA %d %s ledger %d, sum over live pods %d", after, node, n, d, have, v)
+					s.fail("ledger", "numa-amount", "after %s: node %s NUMA %d %s ledger %d, sum over live pods %d", after, node, n, d, have, v)
 				}
 			}
 		}
@@ -1272,7 +1372,7 @@ func (s *nvSim) quiescent() bool {
 // ledger must equal the sum over the live pods in the API server (bound, not
 // terminated, with a persisted allocation), and no CPU may exceed MaxRefCount.
 func (s *nvSim) checkQuiescent() {
-	s.r.OracleEval()
+	s.oracleEval()
 	real := s.realNodes()
 	names := make([]string, 0, len(real))
 	for n := range real {
@@ -1316,21 +1416,21 @@ func (s *nvSim) checkQuiescent() {
 		}
 		for c, info := range cpus {
 			if info.RefCount != cnt[c] {
-				s.r.Fail("ledger-live", "cpu-refcount", "quiescent: node %s CPU %d ref count %d, live API pods holding it %d", node, c, info.RefCount, cnt[c])
+				s.fail("ledger-live", "cpu-refcount", "quiescent: node %s CPU %d ref count %d, live API pods holding it %d", node, c, info.RefCount, cnt[c])
 			}
 		}
 		for c, k := range cnt {
 			if cpus[c].RefCount != k {
-				s.r.Fail("ledger-live", "cpu-refcount", "quiescent: node %s CPU %d ref count %d, live API pods holding it %d", node, c, cpus[c].RefCount, k)
+				s.fail("ledger-live", "cpu-refcount", "quiescent: node %s CPU %d ref count %d, live API pods holding it %d", node, c, cpus[c].RefCount, k)
 			}
 			if nd != nil && k > nd.topo.Max {
-				s.r.Fail("refcount-exceeds-max", "", "quiescent: node %s CPU %d is held by %d live pods, MaxRefCount %d", node, c, k, nd.topo.Max)
+				s.fail("refcount-exceeds-max", "", "quiescent: node %s CPU %d is held by %d live pods, MaxRefCount %d", node, c, k, nd.topo.Max)
 			}
 		}
 		for n, nr := range res {
 			for d, q := range nr.Resources {
 				if v := nvVal(string(d), q); v != used[n][string(d)] {
-					s.r.Fail("ledger-live", "numa-amount", "quiescent: node %s NUMA %d %s ledger %d, sum over live API pods %d", node, n, d, v, used[n][string(d)])
+					s.fail("ledger-live", "numa-amount", "quiescent: node %s NUMA %d %s ledger %d, sum over live API pods %d", node, n, d, v, used[n][string(d)])
 				}
 			}
 		}
@@ -1343,11 +1443,11 @@ func (s *nvSim) checkQuiescent() {
 					}
 				}
 				if have != v {
-					s.r.Fail("ledger-live", "numa-amount", "quiescent: node %s NUMA %d %s ledger %d, sum over live API pods %d", node, n, d, have, v)
+					s.fail("ledger-live", "numa-amount", "quiescent: node %s NUMA %d %s ledger %d, sum over live API pods %d", node, n, d, have, v)
 				}
 				if nd != nil {
 					if c := nd.topo.capacity(n)[d]; v > c {
-						s.r.Fail("numa-over-capacity", nvDimSig(d), "quiescent: node %s NUMA %d %s: live pods hold %d of capacity %d", node, n, d, v, c)
+						s.fail("numa-over-capacity", nvDimSig(d), "quiescent: node %s NUMA %d %s: live pods hold %d of capacity %d", node, n, d, v, c)
 					}
 				}
 			}
@@ -1376,7 +1476,7 @@ func nvSortedPodNames(m map[string]*nvPodVer) []string {
 
 // checkEmpty: after everything was released the ledger is empty.
 func (s *nvSim) checkEmpty() {
-	s.r.OracleEval()
+	s.oracleEval()
 	real := s.realNodes()
 	names := make([]string, 0, len(real))
 	for n := range real {
@@ -1386,26 +1486,26 @@ func (s *nvSim) checkEmpty() {
 	for _, node := range names {
 		na := real[node]
 		if len(na.allocatedPods) != 0 {
-			s.r.Fail("release-empty", "pods", "everything released, node %s still records %d pods", node, len(na.allocatedPods))
+			s.fail("release-empty", "pods", "everything released, node %s still records %d pods", node, len(na.allocatedPods))
 		}
 		if len(na.allocatedCPUs) != 0 {
-			s.r.Fail("release-empty", "cpus", "everything released, node %s still records CPUs %v", node, na.allocatedCPUs.CPUs().ToSlice())
+			s.fail("release-empty", "cpus", "everything released, node %s still records CPUs %v", node, na.allocatedCPUs.CPUs().ToSlice())
 		}
 		for n, nr := range na.allocatedResources {
 			for d, q := range nr.Resources {
 				if !q.IsZero() {
-					s.r.Fail("release-empty", "numa-amount", "everything released, node %s NUMA %d still records %s=%s", node, n, d, q.String())
+					s.fail("release-empty", "numa-amount", "everything released, node %s NUMA %d still records %s=%s", node, n, d, q.String())
 				}
 			}
 		}
 		for n, set := range na.sharedNode {
 			if len(set) != 0 {
-				s.r.Fail("release-empty", "numa-status", "everything released, node %s NUMA %d still marked shared by %v", node, n, set.List())
+				s.fail("release-empty", "numa-status", "everything released, node %s NUMA %d still marked shared by %v", node, n, set.List())
 			}
 		}
 		for n, set := range na.singleNUMANode {
 			if len(set) != 0 {
-				s.r.Fail("release-empty", "numa-status", "everything released, node %s NUMA %d still marked single by %v", node, n, set.List())
+				s.fail("release-empty", "numa-status", "everything released, node %s NUMA %d still marked single by %v", node, n, set.List())
 			}
 		}
 	}
@@ -1427,6 +1527,11 @@ func (nvEngine) Execute(r *sim.Run) {
 		nodeAllocations:        map[string]*NodeAllocation{},
 	}
 	s.h = &podEventHandler{resourceManager: s.rm}
+	if r.Prop == "C19" {
+		s.c19 = true
+		s.mixed = map[string]map[int]bool{}
+		s.pl = &Plugin{handle: &nvHandle{snapshot: &nvSnapshot{s: s}}, resourceManager: s.rm, topologyOptionsManager: s.tm}
+	}
 	r.Sample("cfg %+v", s.cfg)
 
 	next := 0
@@ -1504,6 +1609,10 @@ func (nvEngine) Execute(r *sim.Run) {
 	}
 	if !s.quiescent() {
 		r.HarnessFail("loop ended while work is in flight")
+	}
+	if s.c19 {
+		// one more crash point: the end of the history (every event delivered, nothing in flight)
+		s.fork("end of history", true)
 	}
 	// release everything: every pod is deleted and every delete is delivered
 	for _, pn := range nvSortedPodNames(s.pods) {
@@ -1856,6 +1965,978 @@ func (nvEngine) Generate(p *sim.Plan, g *sim.Rng) {
 			addNode(name)
 		}
 	}
+	if p.Prop == "C19" {
+		// drawn last, so that the workload of a seed does not depend on it
+		cfg.Order = g.Pick("topology-first", "topology-first", "topology-first", "any")
+	}
 	p.SetCfg(cfg)
 	p.SetOps(ops)
+}
+
+// ================================================================ C19: allocation state survives a restart
+//
+// Under property C19 the same histories run with the REAL Plugin.PreBind persisting the allocation at bind, and
+// after EVERY successful bind (and once more at the end of the history) the run forks: fresh plugin caches
+// (topologyManager, resourceManager, pod event handler, NodeResourceTopology event handler) are built and fed ONLY
+// the objects that exist in the API store, as the start-up delivery of a restarted scheduler: every object as an
+// Add in a seeded order, duplicate adds, Update(obj,obj) and an update carrying the same allocation. Oracles:
+//   (a) codec: Get(Set(x)) == x for every allocation the allocator produced; what PreBind stored reads back to the allocation;
+//   (b) the rebuilt NodeAllocation equals the sum over the bound pods of the store (model) and the live ledger restricted to them;
+//   (c) nothing taken before the restart is offered after it (free CPU set, a probe allocation of everything that is left).
+// Start-up order: cmd/koord-scheduler/app/server.go starts the pod/node informer factory, then the koordinator and
+// the NodeResourceTopology factories, all asynchronously; frameworkexthelper.ForceSyncFromInformer only registers the
+// handler. So "topology before pods" is a convention, not a guarantee: both classes are generated (cfg.order) and
+// the class of every fork is part of the violation signature; forks in which a bound pod was handled before the
+// NodeResourceTopology of its node carry the history tag nvTagStartup.
+
+const (
+	nvTagStartup = "pod-add-before-topology-at-startup"
+	nvTagStacked = "cpu-stacked-with-different-exclusive-policies"
+)
+
+// ---- framework stubs for the real Plugin.PreBind
+
+type nvSnapshot struct{ s *nvSim }
+
+func (f *nvSnapshot) NodeInfos() fwktype.NodeInfoLister       { return f }
+func (f *nvSnapshot) StorageInfos() fwktype.StorageInfoLister { return f }
+func (f *nvSnapshot) IsPVCUsedByPods(key string) bool         { return false }
+func (f *nvSnapshot) List() ([]fwktype.NodeInfo, error) {
+	var out []fwktype.NodeInfo
+	names := make([]string, 0, len(f.s.nodes))
+	for n := range f.s.nodes {
+		names = append(names, n)
+	}
+	sort.Strings(names)
+	for _, n := range names {
+		ni, _ := f.Get(n)
+		out = append(out, ni)
+	}
+	return out, nil
+}
+func (f *nvSnapshot) HavePodsWithAffinityList() ([]fwktype.NodeInfo, error)             { return nil, nil }
+func (f *nvSnapshot) HavePodsWithRequiredAntiAffinityList() ([]fwktype.NodeInfo, error) { return nil, nil }
+func (f *nvSnapshot) Get(nodeName string) (fwktype.NodeInfo, error) {
+	nd := f.s.nodes[nodeName]
+	if nd == nil {
+		return nil, fmt.Errorf("unable to find node: %s", nodeName)
+	}
+	ni := framework.NewNodeInfo()
+	ni.SetNode(nd.obj)
+	return ni, nil
+}
+
+// nvHandle is the part of the framework handle preBindObject touches; any other method panics (nil embedded
+// interface) and is reported as harness trouble.
+type nvHandle struct {
+	frameworkext.ExtendedHandle
+	snapshot *nvSnapshot
+}
+
+func (h *nvHandle) SnapshotSharedLister() fwktype.SharedLister { return h.snapshot }
+
+// preBind runs the real Plugin.PreBind for a committed cycle on a copy of the pod, with the cycle state PreFilter and
+// Reserve leave behind, and returns the annotations it wrote.
+func (s *nvSim) preBind(c *nvCycle, cur *nvPodVer) (map[string]string, bool) {
+	sp := c.pod.spec
+	reqs := nvToRL(sp.Req)
+	st := &preFilterState{
+		requestCPUBind: sp.Bind,
+		requests:       reqs,
+		numCPUsNeeded:  int(sp.Req[nvCPU] / 1000),
+		allocation:     c.real,
+	}
+	if sp.Bind {
+		st.preferredCPUBindPolicy = schedulingconfig.CPUBindPolicy(sp.Pol)
+		if sp.Reqd {
+			st.requiredCPUBindPolicy = schedulingconfig.CPUBindPolicy(sp.Pol)
+		}
+		st.preferredCPUExclusivePolicy = schedulingconfig.CPUExclusivePolicy(sp.Excl)
+	}
+	cs := framework.NewCycleState()
+	cs.Write(stateKey, st)
+	obj := cur.obj.DeepCopy()
+	if status := s.pl.PreBind(context.TODO(), cs, obj, c.node); !status.IsSuccess() {
+		s.r.Event("prebind %s on %s failed: %s", c.pod.name, c.node, status.Message())
+		return nil, true
+	}
+	s.r.Probe("c19:prebind-persisted")
+	// (a) what was persisted reads back to exactly the allocation Reserve recorded in the live ledger
+	s.r.OracleEval()
+	back, err := apiext.GetResourceStatus(obj.Annotations)
+	if err != nil {
+		s.r.Fail("persisted-vs-allocation", "undecodable", "pod %s: the resource-status annotation PreBind wrote cannot be decoded: %v (%q)", c.pod.name, err, obj.Annotations[apiext.AnnotationResourceStatus])
+	}
+	if d := nvStatusDiff(nvStatusOf(c.real), back); d != "" {
+		s.r.Fail("persisted-vs-allocation", d, "pod %s on %s: allocation %s, PreBind persisted %q", c.pod.name, c.node, c.alloc, obj.Annotations[apiext.AnnotationResourceStatus])
+	}
+	cpus, err := cpuset.Parse(back.CPUSet)
+	if err != nil || !cpus.Equals(c.real.CPUSet) {
+		s.r.Fail("persisted-vs-allocation", "cpuset-string", "pod %s on %s: allocated CPUs %v, persisted cpuset %q parses to %v (err %v)", c.pod.name, c.node, c.alloc.cpus, back.CPUSet, cpus.ToSlice(), err)
+	}
+	spec, err := apiext.GetResourceSpec(obj.Annotations)
+	if err != nil || string(spec.PreferredCPUExclusivePolicy) != string(c.real.CPUExclusivePolicy) {
+		s.r.Fail("persisted-vs-allocation", "exclusive-policy", "pod %s on %s: allocation recorded with exclusive policy %q, the persisted resource spec says %q (err %v)", c.pod.name, c.node, c.real.CPUExclusivePolicy, spec.PreferredCPUExclusivePolicy, err)
+	}
+	out := map[string]string{}
+	for k, v := range obj.Annotations {
+		out[k] = v
+	}
+	return out, false
+}
+
+// nvStatusOf is the value handed to the codec for an allocation (the way preBindObject builds it).
+func nvStatusOf(pa *PodAllocation) *apiext.ResourceStatus {
+	st := &apiext.ResourceStatus{CPUSet: pa.CPUSet.String()}
+	for _, nr := range pa.NUMANodeResources {
+		st.NUMANodeResources = append(st.NUMANodeResources, apiext.NUMANodeResource{Node: int32(nr.Node), Resources: nr.Resources})
+	}
+	return st
+}
+
+// nvStatusDiff compares two resource statuses exactly (same CPU set string, same NUMA entries in the same order,
+// same resource names, equal quantities - an explicit zero is not the same as an absent amount); "" = equal.
+func nvStatusDiff(want, got *apiext.ResourceStatus) string {
+	if want.CPUSet != got.CPUSet {
+		return "cpuset"
+	}
+	if len(want.NUMANodeResources) != len(got.NUMANodeResources) {
+		return "numa-entries"
+	}
+	for i := range want.NUMANodeResources {
+		w, g := want.NUMANodeResources[i], got.NUMANodeResources[i]
+		if w.Node != g.Node {
+			return "numa-node-id"
+		}
+		if len(w.Resources) != len(g.Resources) {
+			return "numa-resource-names"
+		}
+		for k, q := range w.Resources {
+			gq, ok := g.Resources[k]
+			if !ok {
+				return "numa-resource-names"
+			}
+			if q.Cmp(gq) != 0 {
+				return "numa-amount"
+			}
+		}
+	}
+	return ""
+}
+
+// codecRoundTrip: Get(Set(x)) == x for an allocation the allocator produced, and for the same value padded with
+// explicit zero amounts.
+func (s *nvSim) codecRoundTrip(pa *PodAllocation, desc string) {
+	try := func(st *apiext.ResourceStatus, variant string) {
+		s.r.OracleEval()
+		holder := &corev1.Pod{}
+		if err := apiext.SetResourceStatus(holder, st); err != nil {
+			s.r.Fail("codec", "set-error/"+variant, "SetResourceStatus(%+v): %v; %s", st, err, desc)
+		}
+		back, err := apiext.GetResourceStatus(holder.Annotations)
+		if err != nil {
+			s.r.Fail("codec", "undecodable/"+variant, "GetResourceStatus(%q): %v; %s", holder.Annotations[apiext.AnnotationResourceStatus], err, desc)
+		}
+		if d := nvStatusDiff(st, back); d != "" {
+			s.r.Fail("codec", d+"/"+variant, "wrote %+v, read back %+v (%q); %s", st, back, holder.Annotations[apiext.AnnotationResourceStatus], desc)
+		}
+		cpus, err := cpuset.Parse(back.CPUSet)
+		if err != nil || !cpus.Equals(pa.CPUSet) {
+			s.r.Fail("codec", "cpuset-string/"+variant, "CPUs %v were written as %q which parses to %v (err %v); %s", pa.CPUSet.ToSlice(), back.CPUSet, cpus.ToSlice(), err, desc)
+		}
+	}
+	st := nvStatusOf(pa)
+	try(st, "as-allocated")
+	if strings.Contains(st.CPUSet, "-") {
+		s.r.Probe("c19:codec-cpuset-with-range")
+	}
+	if strings.Contains(st.CPUSet, ",") {
+		s.r.Probe("c19:codec-cpuset-with-several-parts")
+	}
+	if len(st.NUMANodeResources) > 1 {
+		s.r.Probe("c19:codec-several-numa-nodes")
+	}
+	if st.CPUSet == "" {
+		s.r.Probe("c19:codec-empty-cpuset")
+	}
+	// the same allocation written with explicit zero amounts
+	padded := nvZeroPadded(st)
+	try(padded, "zero-padded")
+}
+
+// nvZeroPadded returns a copy of the status with an explicit zero amount added to every NUMA entry and one more
+// entry that holds nothing but zeros: the same allocation, spelled differently.
+func nvZeroPadded(st *apiext.ResourceStatus) *apiext.ResourceStatus {
+	out := &apiext.ResourceStatus{CPUSet: st.CPUSet}
+	maxNode := int32(-1)
+	for _, nr := range st.NUMANodeResources {
+		rl := nr.Resources.DeepCopy()
+		if rl == nil {
+			rl = corev1.ResourceList{}
+		}
+		if _, ok := rl[nvExt]; !ok {
+			rl[nvExt] = *resource.NewQuantity(0, resource.DecimalSI)
+		}
+		out.NUMANodeResources = append(out.NUMANodeResources, apiext.NUMANodeResource{Node: nr.Node, Resources: rl})
+		if nr.Node > maxNode {
+			maxNode = nr.Node
+		}
+	}
+	if maxNode < 0 {
+		out.NUMANodeResources = append(out.NUMANodeResources, apiext.NUMANodeResource{Node: 0, Resources: corev1.ResourceList{
+			corev1.ResourceCPU: *resource.NewMilliQuantity(0, resource.DecimalSI), corev1.ResourceMemory: *resource.NewQuantity(0, resource.BinarySI)}})
+	}
+	return out
+}
+
+// nrtObj builds the NodeResourceTopology object the koordlet reports for the node (CPU topology and reserved CPUs in
+// annotations, one zone per NUMA node): the real event handler + NewTopologyOptions turn it into TopologyOptions.
+func (s *nvSim) nrtObj(nd *nvNode) *nrtv1alpha1.NodeResourceTopology {
+	if nd.nrt != nil {
+		return nd.nrt
+	}
+	t := nd.topo
+	topo := &apiext.CPUTopology{}
+	perNode := map[int]int{}
+	for c := 0; c < t.numCPUs(); c++ {
+		p, _ := t.pos(c)
+		topo.Detail = append(topo.Detail, apiext.CPUInfo{ID: int32(c), Core: int32(p.core - p.socket*t.NPS*t.C), Socket: int32(p.socket), Node: int32(p.node)})
+		perNode[p.node]++
+	}
+	tb, err := json.Marshal(topo)
+	if err != nil {
+		s.r.HarnessFail("marshal CPU topology: %v", err)
+	}
+	ann := map[string]string{apiext.AnnotationNodeCPUTopology: string(tb)}
+	if len(t.Res) > 0 {
+		rb, err := json.Marshal(&apiext.NodeReservation{ReservedCPUs: cpuset.NewCPUSet(t.Res...).String()})
+		if err != nil {
+			s.r.HarnessFail("marshal node reservation: %v", err)
+		}
+		ann[apiext.AnnotationNodeReservation] = string(rb)
+	}
+	nrt := &nrtv1alpha1.NodeResourceTopology{ObjectMeta: metav1.ObjectMeta{Name: nd.name, Annotations: ann, ResourceVersion: "1"}}
+	for n := 0; n < t.numNodes(); n++ {
+		zone := nrtv1alpha1.Zone{Name: fmt.Sprintf("node-%d", n), Type: "Node"}
+		capn := t.capacity(n)
+		for _, d := range nvSortedKeys(capn) {
+			v := capn[d]
+			if d == nvCPU {
+				v = int64(perNode[n]) * 1000 // the zone reports every CPU; NewTopologyOptions takes the reserved ones off
+			}
+			q := nvQuantity(d, v)
+			zone.Resources = append(zone.Resources, nrtv1alpha1.ResourceInfo{Name: d, Capacity: q, Allocatable: q, Available: q})
+		}
+		nrt.Zones = append(nrt.Zones, zone)
+	}
+	nd.nrt = nrt
+	return nrt
+}
+
+// nvCheckOptions: harness self-check - the TopologyOptions the real NodeResourceTopology handler derived from nrtObj
+// must be the ones the live run installed directly (t.options()), otherwise live and rebuilt are not comparable.
+func (s *nvSim) nvCheckOptions(node string, t *nvTopo, got TopologyOptions) {
+	want := t.options()
+	bad := ""
+	switch {
+	case got.CPUTopology == nil || !got.CPUTopology.IsValid():
+		bad = "no valid CPU topology"
+	case got.CPUTopology.NumCPUs != want.CPUTopology.NumCPUs || got.CPUTopology.NumCores != want.CPUTopology.NumCores ||
+		got.CPUTopology.NumNodes != want.CPUTopology.NumNodes || got.CPUTopology.NumSockets != want.CPUTopology.NumSockets:
+		bad = "topology counts"
+	case len(got.CPUTopology.CPUDetails) != len(want.CPUTopology.CPUDetails):
+		bad = "cpu details size"
+	case !got.ReservedCPUs.Equals(want.ReservedCPUs):
+		bad = "reserved CPUs"
+	case got.MaxRefCount != want.MaxRefCount:
+		bad = "MaxRefCount"
+	case len(got.NUMANodeResources) != len(want.NUMANodeResources):
+		bad = "NUMA node resources size"
+	}
+	if bad == "" {
+		for c, info := range want.CPUTopology.CPUDetails {
+			if got.CPUTopology.CPUDetails[c] != info {
+				bad = fmt.Sprintf("cpu %d details", c)
+			}
+		}
+		for i := range want.NUMANodeResources {
+			w, g := want.NUMANodeResources[i], got.NUMANodeResources[i]
+			if w.Node != g.Node || len(w.Resources) != len(g.Resources) {
+				bad = fmt.Sprintf("NUMA node %d resources", w.Node)
+				continue
+			}
+			for k, q := range w.Resources {
+				if gq, ok := g.Resources[k]; !ok || q.Cmp(gq) != 0 {
+					bad = fmt.Sprintf("NUMA node %d %s", w.Node, k)
+				}
+			}
+		}
+	}
+	if bad != "" {
+		s.r.HarnessFail("node %s: TopologyOptions derived from the NodeResourceTopology object differ from the installed ones (%s): got %+v want %+v", node, bad, got, want)
+	}
+}
+
+// ---- the ledger a set of holders implies (from the statement: sums over the pods)
+
+type nvHolder struct {
+	name  string
+	alloc *nvAlloc
+}
+
+type nvLedger struct {
+	pods   map[string]nvHolder
+	cnt    map[int]int
+	used   map[int]map[string]int64
+	shared map[int]map[string]bool // NUMA node -> pods whose CPU set spans several NUMA nodes
+	single map[int]map[string]bool // NUMA node -> pods whose CPU set lies in this NUMA node only
+}
+
+func nvDerive(t *nvTopo, pods map[string]nvHolder) *nvLedger {
+	l := &nvLedger{pods: pods, cnt: map[int]int{}, used: map[int]map[string]int64{}, shared: map[int]map[string]bool{}, single: map[int]map[string]bool{}}
+	for uid, h := range pods {
+		on := map[int]bool{}
+		for _, c := range h.alloc.cpus {
+			l.cnt[c]++
+			if p, ok := t.pos(c); ok {
+				on[p.node] = true
+			}
+		}
+		dst := l.single
+		if len(on) > 1 {
+			dst = l.shared
+		}
+		for n := range on {
+			if dst[n] == nil {
+				dst[n] = map[string]bool{}
+			}
+			dst[n][uid] = true
+		}
+		for n, m := range h.alloc.numa {
+			for d, v := range m {
+				if v == 0 {
+					continue
+				}
+				if l.used[n] == nil {
+					l.used[n] = map[string]int64{}
+				}
+				l.used[n][d] += v
+			}
+		}
+	}
+	return l
+}
+
+// nvNumaDiff compares per-NUMA amounts by value (an absent amount is a zero amount); "" = equal.
+func nvNumaDiff(a, b map[int]map[string]int64) string {
+	for _, pair := range [2][2]map[int]map[string]int64{{a, b}, {b, a}} {
+		for _, n := range nvSortedInts(pair[0]) {
+			for _, d := range nvSortedKeys(pair[0][n]) {
+				if pair[0][n][d] != pair[1][n][d] {
+					return fmt.Sprintf("NUMA %d %s: %d vs %d", n, d, a[n][d], b[n][d])
+				}
+			}
+		}
+	}
+	return ""
+}
+
+// nvExclNorm: "" and "None" both mean "not exclusive".
+func nvExclNorm(p string) string {
+	if p == string(schedulingconfig.CPUExclusivePolicyNone) {
+		return ""
+	}
+	return p
+}
+
+func nvIntsEq(a, b []int) bool {
+	if len(a) != len(b) {
+		return false
+	}
+	for i := range a {
+		if a[i] != b[i] {
+			return false
+		}
+	}
+	return true
+}
+
+func nvSortedSet(m map[string]bool) []string {
+	out := make([]string, 0, len(m))
+	for k := range m {
+		out = append(out, k)
+	}
+	sort.Strings(out)
+	return out
+}
+
+func nvSortedHolders(m map[string]nvHolder) []string {
+	out := make([]string, 0, len(m))
+	for k := range m {
+		out = append(out, k)
+	}
+	sort.Strings(out)
+	return out
+}
+
+// compareLedger: the NodeAllocation `na` (nil = no entry = empty) must be exactly the ledger the holders imply.
+func (s *nvSim) compareLedger(oracle, class, what, node string, na *NodeAllocation, want *nvLedger, t *nvTopo) {
+	r := s.r
+	r.OracleEval()
+	var pods map[types.UID]PodAllocation
+	var cpus CPUDetails
+	var res map[int]*NUMANodeResource
+	if na != nil {
+		pods, cpus, res = na.allocatedPods, na.allocatedCPUs, na.allocatedResources
+	}
+	fail := func(detail, format string, args ...any) {
+		r.Fail(oracle, detail+"/"+class, "%s: node %s: %s", what, node, fmt.Sprintf(format, args...))
+	}
+	// pods
+	for _, uid := range nvSortedHolders(want.pods) {
+		h := want.pods[uid]
+		pa, ok := pods[types.UID(uid)]
+		if !ok {
+			fail("pod-lost", "pod %s (%s) holds %s but the rebuilt ledger does not know it", h.name, uid, h.alloc)
+		}
+		g := nvFromReal(&pa)
+		if !nvIntsEq(g.cpus, h.alloc.cpus) {
+			fail("pod-cpuset", "pod %s holds CPUs %v, rebuilt as %v", h.name, h.alloc.cpus, g.cpus)
+		}
+		if d := nvNumaDiff(h.alloc.numa, g.numa); d != "" {
+			fail("pod-numa-amount", "pod %s holds %s, rebuilt as %s (%s)", h.name, h.alloc, g, d)
+		}
+		if g.excl != h.alloc.excl {
+			fail("pod-exclusive-policy", "pod %s was allocated with exclusive policy %q, rebuilt with %q", h.name, h.alloc.excl, g.excl)
+		}
+		if pa.Name != h.name || pa.Namespace != "default" {
+			fail("pod-identity", "pod %s rebuilt as %s/%s", h.name, pa.Namespace, pa.Name)
+		}
+	}
+	var ghosts []string
+	for uid := range pods {
+		if _, ok := want.pods[string(uid)]; !ok {
+			ghosts = append(ghosts, string(uid))
+		}
+	}
+	sort.Strings(ghosts)
+	if len(ghosts) > 0 {
+		pa := pods[types.UID(ghosts[0])]
+		fail("pod-ghost", "the rebuilt ledger holds %s (%s) which is not a bound live pod with an allocation", ghosts[0], nvFromReal(&pa))
+	}
+	// CPUs with reference counts
+	for _, c := range nvSortedInts(want.cnt) {
+		if cpus[c].RefCount != want.cnt[c] {
+			fail("cpu-refcount", "CPU %d is held by %d pods, rebuilt reference count %d", c, want.cnt[c], cpus[c].RefCount)
+		}
+	}
+	for _, c := range nvSortedInts(cpus) {
+		info := cpus[c]
+		if info.RefCount != want.cnt[c] {
+			fail("cpu-refcount", "CPU %d is held by %d pods, rebuilt reference count %d", c, want.cnt[c], info.RefCount)
+		}
+		p, ok := t.pos(c)
+		if !ok || info.CPUID != c || info.NodeID != p.node || info.SocketID != p.socket {
+			fail("cpu-info", "CPU %d rebuilt as %+v, the topology puts it on socket %d NUMA node %d", c, info, p.socket, p.node)
+		}
+		okPol := false
+		for _, h := range want.pods {
+			for _, hc := range h.alloc.cpus {
+				if hc == c && h.alloc.excl == string(info.ExclusivePolicy) {
+					okPol = true
+				}
+			}
+		}
+		if !okPol {
+			fail("cpu-exclusive-policy", "CPU %d rebuilt with exclusive policy %q which none of its holders has", c, info.ExclusivePolicy)
+		}
+	}
+	// per-NUMA amounts
+	have := map[int]map[string]int64{}
+	for n, nr := range res {
+		for d, q := range nr.Resources {
+			if v := nvVal(string(d), q); v != 0 {
+				if have[n] == nil {
+					have[n] = map[string]int64{}
+				}
+				have[n][string(d)] = v
+			}
+		}
+	}
+	if d := nvNumaDiff(want.used, have); d != "" {
+		fail("numa-amount", "sum over the pods vs rebuilt ledger: %s", d)
+	}
+	// NUMA node status sets
+	for _, pair := range []struct {
+		name string
+		want map[int]map[string]bool
+	}{{"shared", want.shared}, {"single", want.single}} {
+		got := map[int][]string{}
+		if na != nil {
+			src := na.sharedNode
+			if pair.name == "single" {
+				src = na.singleNUMANode
+			}
+			for n, set := range src {
+				if set.Len() > 0 {
+					got[n] = set.List()
+				}
+			}
+		}
+		ns := map[int]bool{}
+		for n := range got {
+			ns[n] = true
+		}
+		for n, m := range pair.want {
+			if len(m) > 0 {
+				ns[n] = true
+			}
+		}
+		for _, n := range nvSortedInts(ns) {
+			if w, g := strings.Join(nvSortedSet(pair.want[n]), ","), strings.Join(got[n], ","); w != g {
+				fail("numa-status", "NUMA node %d %s-set: pods {%s} by their CPU sets, rebuilt {%s}", n, pair.name, w, g)
+			}
+		}
+	}
+}
+
+func nvLedgerString(na *NodeAllocation) string {
+	if na == nil {
+		return "-"
+	}
+	var sb strings.Builder
+	uids := make([]string, 0, len(na.allocatedPods))
+	for uid := range na.allocatedPods {
+		uids = append(uids, string(uid))
+	}
+	sort.Strings(uids)
+	for _, uid := range uids {
+		pa := na.allocatedPods[types.UID(uid)]
+		fmt.Fprintf(&sb, "%s{%s %s} ", uid, nvFromReal(&pa), pa.CPUExclusivePolicy)
+	}
+	for _, c := range nvSortedInts(na.allocatedCPUs) {
+		fmt.Fprintf(&sb, "%d:%d ", c, na.allocatedCPUs[c].RefCount)
+	}
+	for _, n := range nvSortedInts(na.allocatedResources) {
+		m := map[string]int64{}
+		for d, q := range na.allocatedResources[n].Resources {
+			if v := nvVal(string(d), q); v != 0 {
+				m[string(d)] = v
+			}
+		}
+		if len(m) > 0 {
+			fmt.Fprintf(&sb, "n%d{%s} ", n, nvFmt(m))
+		}
+	}
+	return sb.String()
+}
+
+// ---- start-up delivery
+
+type nvStartEv struct {
+	typ  string // nrt | node | pod
+	kind string // add | dup-add | resync | same-allocation-update | same-allocation-update-zero-padded
+	node string
+	pod  *nvPodVer
+}
+
+// nvShuffle: selection shuffle driven by the deliver tape (all zeros = the given order).
+func nvShuffle[T any](r *sim.Run, xs []T) {
+	for i := 0; i+1 < len(xs); i++ {
+		j := i + r.Choose(len(xs)-i)
+		xs[i], xs[j] = xs[j], xs[i]
+	}
+}
+
+// nvInsertAfter inserts ev at a seeded position behind index `after` (never before the add of the same object).
+func nvInsertAfter(r *sim.Run, q []nvStartEv, after int, ev nvStartEv) ([]nvStartEv, int) {
+	pos := after + 1 + r.Choose(len(q)-after)
+	q = append(q, nvStartEv{})
+	copy(q[pos+1:], q[pos:])
+	q[pos] = ev
+	return q, pos
+}
+
+// nvTouched is a later version of the pod object that carries the same allocation (some unrelated field changed),
+// optionally with the allocation spelled with explicit zero amounts.
+func (s *nvSim) nvTouched(v *nvPodVer, zeroPad bool) *corev1.Pod {
+	p := v.obj.DeepCopy()
+	p.ResourceVersion = p.ResourceVersion + "1"
+	p.Labels["touched"] = "1"
+	if zeroPad {
+		st, err := apiext.GetResourceStatus(p.Annotations)
+		if err != nil {
+			return p
+		}
+		if err := apiext.SetResourceStatus(p, nvZeroPadded(st)); err != nil {
+			s.r.HarnessFail("SetResourceStatus: %v", err)
+		}
+	}
+	return p
+}
+
+// fork is one crash point: the live ledger is summarised, fresh caches are built from the API store only, and the
+// three oracles of C19 are evaluated.
+func (s *nvSim) fork(trigger string, final bool) {
+	r := s.r
+	stackedDiff := ""
+	s.forks++
+	r.Probe("c19:fork")
+	nodeNames := make([]string, 0, len(s.nodes))
+	for n := range s.nodes {
+		nodeNames = append(nodeNames, n)
+	}
+	sort.Strings(nodeNames)
+	podNames := nvSortedPodNames(s.pods)
+
+	// ---- what the API store says is allocated: bound, not terminated, with a persisted allocation (model, from the statement)
+	expected := map[string]map[string]nvHolder{}
+	isExpected := func(v *nvPodVer) bool {
+		return v.node != "" && !v.term && !v.alloc.empty() && s.nodes[v.node] != nil
+	}
+	for _, n := range nodeNames {
+		expected[n] = map[string]nvHolder{}
+	}
+	nBound := 0
+	for _, pn := range podNames {
+		v := s.pods[pn]
+		switch {
+		case isExpected(v):
+			expected[v.node][v.uid] = nvHolder{name: v.name, alloc: v.alloc}
+			nBound++
+		case v.node != "" && v.term:
+			r.Probe("c19:store-has-terminated-pod")
+		case v.node == "":
+			r.Probe("c19:store-has-unbound-pod")
+		}
+	}
+
+	// ---- the live ledger at the crash point
+	live := s.realNodes()
+	for _, n := range nodeNames {
+		r.Event("fork %d (%s) live %s %s", s.forks, trigger, n, nvLedgerString(live[n]))
+	}
+
+	// ---- fresh plugin caches
+	tm2 := NewTopologyOptionsManager()
+	rm2 := &resourceManager{numaAllocateStrategy: s.rm.numaAllocateStrategy, topologyOptionsManager: tm2, nodeAllocations: map[string]*NodeAllocation{}}
+	h2 := &podEventHandler{resourceManager: rm2}
+	th2 := &nodeResourceTopologyEventHandler{topologyManager: tm2}
+	nodeH := cache.ResourceEventHandlerFuncs{DeleteFunc: rm2.onNodeDelete} // what NewResourceManager registers on the node informer
+	for _, n := range nodeNames {
+		// MaxRefCount is not part of the NodeResourceTopology: "other plugins customize it" (topology_eventhandler.go);
+		// the stub of that other plugin configures the restarted scheduler like the old one
+		max := s.nodes[n].topo.Max
+		tm2.UpdateTopologyOptions(n, func(o *TopologyOptions) { o.MaxRefCount = max })
+	}
+
+	// ---- the start-up delivery: per informer one stream; every object as an Add, plus duplicates / resyncs / updates with the same allocation
+	var nrtQ, nodeQ, podQ []nvStartEv
+	for _, n := range nodeNames {
+		nrtQ = append(nrtQ, nvStartEv{typ: "nrt", kind: "add", node: n})
+		nodeQ = append(nodeQ, nvStartEv{typ: "node", kind: "add", node: n})
+	}
+	for _, pn := range podNames {
+		podQ = append(podQ, nvStartEv{typ: "pod", kind: "add", pod: s.pods[pn]})
+	}
+	nvShuffle(r, nrtQ)
+	nvShuffle(r, nodeQ)
+	nvShuffle(r, podQ)
+	for _, n := range nodeNames {
+		at := -1
+		for i, ev := range nrtQ {
+			if ev.node == n && ev.kind == "add" {
+				at = i
+			}
+		}
+		if r.Flip(0.15) {
+			nrtQ, at = nvInsertAfter(r, nrtQ, at, nvStartEv{typ: "nrt", kind: "dup-add", node: n})
+		}
+		if r.Flip(0.15) {
+			nrtQ, _ = nvInsertAfter(r, nrtQ, at, nvStartEv{typ: "nrt", kind: "resync", node: n})
+		}
+	}
+	for _, pn := range podNames {
+		v := s.pods[pn]
+		at := -1
+		for i, ev := range podQ {
+			if ev.pod == v && ev.kind == "add" {
+				at = i
+			}
+		}
+		if r.Flip(0.2) {
+			podQ, at = nvInsertAfter(r, podQ, at, nvStartEv{typ: "pod", kind: "dup-add", pod: v})
+		}
+		if r.Flip(0.2) {
+			podQ, at = nvInsertAfter(r, podQ, at, nvStartEv{typ: "pod", kind: "resync", pod: v})
+		}
+		if r.Flip(0.2) {
+			kind := "same-allocation-update"
+			if r.Flip(0.4) {
+				kind = "same-allocation-update-zero-padded"
+			}
+			podQ, _ = nvInsertAfter(r, podQ, at, nvStartEv{typ: "pod", kind: kind, pod: v})
+		}
+	}
+
+	topoSeen := map[string]bool{}
+	podBeforeTopo := false
+	deliver := func(ev nvStartEv) {
+		switch ev.typ {
+		case "nrt":
+			obj := s.nrtObj(s.nodes[ev.node])
+			if ev.kind == "resync" {
+				th2.OnUpdate(obj, obj)
+			} else {
+				th2.OnAdd(obj, ev.kind == "add")
+			}
+			topoSeen[ev.node] = true
+			r.Event("startup nrt %s %s", ev.kind, ev.node)
+		case "node":
+			nodeH.OnAdd(s.nodes[ev.node].obj, true)
+			r.Event("startup node add %s", ev.node)
+		case "pod":
+			v := ev.pod
+			if isExpected(v) && !topoSeen[v.node] {
+				// history class of the finding recorded for C19: the restarted scheduler handles a bound pod before the
+				// NodeResourceTopology of the pod's node
+				podBeforeTopo = true
+				r.Tag(nvTagStartup)
+				r.Probe("c19:bound-pod-handled-before-its-topology")
+			}
+			switch ev.kind {
+			case "add":
+				h2.OnAdd(v.obj, true)
+			case "dup-add":
+				h2.OnAdd(v.obj, false)
+			case "resync":
+				h2.OnUpdate(v.obj, v.obj)
+			case "same-allocation-update":
+				h2.OnUpdate(v.obj, s.nvTouched(v, false))
+			default:
+				h2.OnUpdate(v.obj, s.nvTouched(v, true))
+			}
+			if ev.kind != "add" {
+				r.Probe("c19:startup-pod-" + ev.kind)
+			}
+			r.Event("startup pod %s %s node=%s term=%v %s", ev.kind, v.name, v.node, v.term, v.alloc)
+		}
+	}
+	if s.cfg.Order != "any" {
+		// the convention: every NodeResourceTopology is handled before the first pod
+		for _, ev := range nrtQ {
+			deliver(ev)
+		}
+		nrtQ = nil
+	}
+	for len(nrtQ)+len(podQ)+len(nodeQ) > 0 {
+		var qs []*[]nvStartEv
+		for _, q := range []*[]nvStartEv{&nrtQ, &podQ, &nodeQ} {
+			if len(*q) > 0 {
+				qs = append(qs, q)
+			}
+		}
+		q := qs[r.Choose(len(qs))]
+		ev := (*q)[0]
+		*q = (*q)[1:]
+		deliver(ev)
+	}
+	class := "topology-first"
+	if podBeforeTopo {
+		class = "pod-before-topology"
+	}
+	r.Probe("c19:fork-order:" + class)
+
+	rebuilt := map[string]*NodeAllocation{}
+	for _, n := range nodeNames {
+		// the public accessor every reader of the ledger goes through (a repair may complete deferred work here)
+		rm2.GetNodeAllocation(n)
+	}
+	rm2.lock.Lock()
+	for k, v := range rm2.nodeAllocations {
+		rebuilt[k] = v
+	}
+	rm2.lock.Unlock()
+	for name := range rebuilt {
+		if s.nodes[name] == nil {
+			r.Fail("rebuilt-vs-persisted", "unknown-node/"+class, "the rebuilt resource manager has a ledger for node %s which does not exist", name)
+		}
+	}
+	for _, n := range nodeNames {
+		r.Event("fork %d rebuilt %s %s", s.forks, n, nvLedgerString(rebuilt[n]))
+	}
+
+	for _, n := range nodeNames {
+		t := s.nodes[n].topo
+		s.nvCheckOptions(n, t, tm2.GetTopologyOptions(n))
+		want := nvDerive(t, expected[n])
+		// (b1) rebuilt == what the API objects say (independent of the live ledger)
+		s.compareLedger("rebuilt-vs-persisted", class, fmt.Sprintf("fork %d after %s, rebuilt ledger vs bound pods of the API store", s.forks, trigger), n, rebuilt[n], want, t)
+
+		// (b2) rebuilt == the live ledger restricted to the bound pods
+		if s.liveBad {
+			r.Probe("c19:live-comparison-skipped(live ledger failed a C06 oracle)")
+		} else {
+			lv := live[n]
+			restricted := map[string]nvHolder{}
+			missing, extra := 0, 0
+			if lv != nil {
+				for uid, pa := range lv.allocatedPods {
+					if _, ok := expected[n][string(uid)]; ok {
+						pa := pa
+						restricted[string(uid)] = nvHolder{name: pa.Name, alloc: nvFromReal(&pa)}
+					} else {
+						extra++
+					}
+				}
+			}
+			missing = len(expected[n]) - len(restricted)
+			if extra > 0 {
+				// assumed-but-unbound allocations, pods whose delete / termination the live scheduler has not seen yet
+				r.Probe("c19:live-holds-allocations-that-vanish-at-restart")
+			}
+			if missing > 0 {
+				// cannot happen in the generated histories (a bound pod is in the live ledger since Reserve / its add)
+				r.Probe("c19:bound-pod-not-in-live-ledger")
+			} else {
+				s.compareLedger("rebuilt-vs-live", class, fmt.Sprintf("fork %d after %s, rebuilt ledger vs live ledger restricted to bound pods", s.forks, trigger), n, rebuilt[n], nvDerive(t, restricted), t)
+				if extra == 0 && lv != nil && rebuilt[n] != nil {
+					// the live ledger holds exactly the bound pods: the raw per-CPU records must be identical too
+					r.OracleEval()
+					r.Probe("c19:raw-ledger-compared")
+					for _, c := range nvSortedInts(lv.allocatedCPUs) {
+						a, b := lv.allocatedCPUs[c], rebuilt[n].allocatedCPUs[c]
+						// "" and "None" are the same policy (the accumulator only looks for PCPULevel / NUMANodeLevel)
+						a.ExclusivePolicy = schedulingconfig.CPUExclusivePolicy(nvExclNorm(string(a.ExclusivePolicy)))
+						b.ExclusivePolicy = schedulingconfig.CPUExclusivePolicy(nvExclNorm(string(b.ExclusivePolicy)))
+						if s.mixed[n][c] {
+							// pods with different exclusive policies were stacked on this CPU (MaxRefCount > 1): the ledger keeps the
+							// last writer's policy, which depends on the order of the adds (recorded finding, history tag nvTagStacked).
+							// So that such runs are still explored to their end, the difference is only counted at the crash points in
+							// the middle of a history and reported, after every other oracle, at the last one.
+							if a.ExclusivePolicy != b.ExclusivePolicy {
+								r.Probe("c19:exclusive-policy-of-stacked-cpu-differs")
+								if stackedDiff == "" {
+									stackedDiff = fmt.Sprintf("fork %d after %s: node %s CPU %d (on which pods with different exclusive policies were stacked): live record %+v, rebuilt record %+v", s.forks, trigger, n, c, a, b)
+								}
+							}
+							a.ExclusivePolicy, b.ExclusivePolicy = "", ""
+						}
+						if a != b {
+							r.Fail("rebuilt-vs-live", "cpu-record/"+class, "fork %d after %s: node %s CPU %d: live record %+v, rebuilt record %+v", s.forks, trigger, n, c, a, b)
+						}
+					}
+				}
+			}
+		}
+
+		// (c) nothing taken before the restart is offered after it
+		s.probeAfterRestart(class, trigger, n, rm2, tm2, want)
+	}
+	r.Sample("fork %d after %s: %d nodes, %d pods (%d bound with an allocation), order %s", s.forks, trigger, len(nodeNames), len(podNames), nBound, class)
+	if final && stackedDiff != "" {
+		r.Fail("rebuilt-vs-live", "exclusive-policy-of-stacked-cpu/"+class, "%s", stackedDiff)
+	}
+}
+
+// probeAfterRestart: the free CPU set of the rebuilt cache is exactly "not reserved and held by fewer than
+// MaxRefCount bound pods"; an allocation of ALL remaining CPUs and of ALL remaining NUMA amounts on the rebuilt
+// cache never hands out anything a bound pod holds.
+func (s *nvSim) probeAfterRestart(class, trigger, node string, rm2 *resourceManager, tm2 TopologyOptionsManager, want *nvLedger) {
+	r := s.r
+	nd := s.nodes[node]
+	t := nd.topo
+	where := fmt.Sprintf("fork %d after %s: node %s", s.forks, trigger, node)
+	r.OracleEval()
+	avail, _, err := rm2.GetAvailableCPUs(node)
+	if err != nil {
+		r.Fail("offered-after-restart", "available-error/"+class, "%s: GetAvailableCPUs on the rebuilt cache: %v", where, err)
+	}
+	nFree := 0
+	for c := 0; c < t.numCPUs(); c++ {
+		free := !t.reserved(c) && want.cnt[c] < t.Max
+		if free {
+			nFree++
+		}
+		if avail.Contains(c) && !free {
+			r.Fail("offered-after-restart", "taken-cpu-in-free-set/"+class, "%s: CPU %d is held by %d bound pods (MaxRefCount %d, reserved=%v) but the rebuilt cache offers it; free set %v",
+				where, c, want.cnt[c], t.Max, t.reserved(c), avail.ToSlice())
+		}
+		if !avail.Contains(c) && free {
+			r.Fail("offered-after-restart", "free-cpu-withheld/"+class, "%s: CPU %d is held by %d bound pods (MaxRefCount %d) but the rebuilt cache does not offer it; free set %v",
+				where, c, want.cnt[c], t.Max, avail.ToSlice())
+		}
+	}
+	opts := tm2.GetTopologyOptions(node)
+	probe := &corev1.Pod{ObjectMeta: metav1.ObjectMeta{Name: "restart-probe", Namespace: "default", UID: "u-restart-probe"}}
+	if nFree > 0 {
+		reqs := nvToRL(map[string]int64{nvCPU: int64(nFree) * 1000})
+		pa, status := rm2.Allocate(nd.obj, probe, &ResourceOptions{numCPUsNeeded: nFree, requestCPUBind: true, requests: reqs, originalRequests: reqs,
+			preferredCPUs: cpuset.NewCPUSet(), preemptibleCPUs: cpuset.NewCPUSet(), topologyOptions: opts})
+		r.OracleEval()
+		if status.IsSuccess() && pa != nil {
+			r.Probe("c19:probe-all-free-cpus-ok")
+			got := pa.CPUSet.ToSlice()
+			if len(got) != nFree {
+				r.Fail("offered-after-restart", "probe-cpu-count/"+class, "%s: probe for all %d free CPUs got %v", where, nFree, got)
+			}
+			for _, c := range got {
+				if t.reserved(c) || want.cnt[c] >= t.Max {
+					r.Fail("offered-after-restart", "probe-got-taken-cpu/"+class, "%s: probe allocation for all %d free CPUs got CPU %d which %d bound pods hold (MaxRefCount %d, reserved=%v): %v",
+						where, nFree, c, want.cnt[c], t.Max, t.reserved(c), got)
+				}
+			}
+		} else {
+			r.Probe("c19:probe-all-free-cpus-failed")
+		}
+	} else {
+		r.Probe("c19:probe-no-free-cpu")
+	}
+	// everything that is left per NUMA node, asked for with a hint naming every NUMA node
+	left := map[int]map[string]int64{}
+	req := map[string]int64{}
+	var all []int
+	for n := 0; n < t.numNodes(); n++ {
+		all = append(all, n)
+		left[n] = map[string]int64{}
+		for d, c := range t.capacity(n) {
+			f := c - want.used[n][d]
+			if f < 0 {
+				f = 0
+			}
+			left[n][d] = f
+			req[d] += f
+		}
+	}
+	for d, v := range req {
+		if v == 0 {
+			delete(req, d)
+		}
+	}
+	if len(req) == 0 {
+		r.Probe("c19:probe-nothing-left-per-numa")
+		return
+	}
+	mask, err := bitmask.NewBitMask(all...)
+	if err != nil {
+		r.HarnessFail("bitmask: %v", err)
+	}
+	reqs := nvToRL(req)
+	pa, status := rm2.Allocate(nd.obj, probe, &ResourceOptions{requests: reqs, originalRequests: reqs, preferredCPUs: cpuset.NewCPUSet(), preemptibleCPUs: cpuset.NewCPUSet(),
+		topologyOptions: opts, hint: topologymanager.NUMATopologyHint{NUMANodeAffinity: mask}})
+	r.OracleEval()
+	if !status.IsSuccess() || pa == nil {
+		r.Fail("offered-after-restart", "free-amount-withheld/"+class, "%s: probe for everything that is left per NUMA node {%s} fails on the rebuilt cache (%s); left per node %v, held by bound pods %v",
+			where, nvFmt(req), status.Message(), left, want.used)
+	}
+	r.Probe("c19:probe-all-free-numa-amounts-ok")
+	g := nvFromReal(pa)
+	for _, n := range nvSortedInts(g.numa) {
+		for _, d := range nvSortedKeys(g.numa[n]) {
+			if g.numa[n][d] > left[n][d] {
+				r.Fail("offered-after-restart", "probe-got-taken-amount/"+class, "%s: probe allocation got %s=%d from NUMA node %d where only %d is left (capacity %d, bound pods hold %d)",
+					where, d, g.numa[n][d], n, left[n][d], t.capacity(n)[d], want.used[n][d])
+			}
+		}
+	}
 }
